@@ -130,7 +130,10 @@ def run(tier, seed):
         vecs.append(("random-%d" % len(vecs), bytes(rnd.randrange(256) for _ in range(1024))))
     for k in KERNELS:
         for i, (label, data) in enumerate(vecs):
-            jobs.append(("kernel-" + k, label, ["kernel", k], mkfile("v%02d_%s.bin" % (i, k[:6].ljust(6, "_")), data)))
+            f = mkfile("v%02d_%s.bin" % (i, k[:6].ljust(6, "_")), data)
+            jobs.append(("kernel-" + k, label, ["kernel", k], f))
+            # the kernels' self-checks (debug assertions) are code too: same inputs in the dev-profile build
+            jobs.append(("kernel-debug-assertions-" + k, label, ["kernel", k], f, devdir))
     # a recorded finding (known_findings.json): the compiler turned the branch-free corner of the ML-DSA-44
     # decompose into a conditional branch in some inlined copies.  Its guarded instructions are located by
     # their code pattern and left out of the observation, so that every OTHER difference is still reported.
